@@ -20,6 +20,7 @@
 #include "float_cast.h"
 #include "mathops.h"
 #include "cpu_support.h"
+#include "mapping_matrix.h"
 
 static uint32_t f2u(float f) { uint32_t u; memcpy(&u, &f, 4); return u; }
 static float u2f(uint32_t u) { float f; memcpy(&f, &u, 4); return f; }
@@ -65,7 +66,8 @@ static void tie_out(uint32_t b)
    fflush(stdout);
    i16 = w_res2int16(f); i24 = w_res2int24(f);
    cls = e == 255 ? ((b & 0x7fffff) ? "nan" : "inf") : i24 == (-2147483647 - 1) ? "indefinite24" : (i16 == -32768 || i16 == 32767) ? "sat16" : i16 == 0 ? "tiny" : "mid";
-   printf("O %s i16=%d i24=%d f=%u\n", cls, i16, i24, f2u(w_res2float(f)));
+   if (e == 255 && (b & 0x7fffff)) printf("O nan i16=any i24=%d f=%u\n", i24, f2u(w_res2float(f)));   /* NaN: see SuitePcm.lean */
+   else printf("O %s i16=%d i24=%d f=%u\n", cls, i16, i24, f2u(w_res2float(f)));
 }
 
 static void run_conv(int level)
@@ -142,9 +144,48 @@ static void run_f2i16(uint64_t seed, long n)
       printf("I pcm f2i16 "); vhex(stdout, (unsigned char *)in, 4L * cnt); printf("\n"); fflush(stdout);
       celt_float2int16(in, out, cnt, arch);
       printf("O n=%d ", cnt);
-      for (i = 0; i < cnt; i++) printf("%s%d", i ? "," : "", out[i]);
+      for (i = 0; i < cnt; i++) { if (in[i] != in[i]) printf("%snan", i ? "," : ""); else printf("%s%d", i ? "," : "", out[i]); }
       printf("\n");
       free(in); free(out);
+   }
+}
+
+/* one output sample of the projection 16-bit path: a 1 x K matrix, the output cleared, then one call of
+   mapping_matrix_multiply_channel_out_short per decoded stream channel (as opus_projection_copy_channel_out_short does) */
+static void tie_proj(const opus_int16 *m, const float *v, int K)
+{
+   int k; opus_int32 sz = mapping_matrix_get_size(1, K); MappingMatrix *mat = (MappingMatrix *)malloc(sz > 0 ? sz : 1);
+   opus_int16 *out = (opus_int16 *)malloc(2); long long exact = 0;
+   mapping_matrix_init(mat, 1, K, 0, m, 2 * K);
+   printf("I pcm proj ");
+   for (k = 0; k < K; k++) printf("%s%d", k ? "," : "", m[k]);
+   printf(" "); vhex(stdout, (const unsigned char *)v, 4L * K); printf("\n"); fflush(stdout);
+   *out = 0;
+   for (k = 0; k < K; k++) {
+      float *s = (float *)vexact((const unsigned char *)&v[k], 4);
+      mapping_matrix_multiply_channel_out_short(mat, s, k, 1, out, 1, 1);
+      exact += ((opus_int32)m[k] * w_res2int16(v[k]) + 16384) >> 15;
+      free(s);
+   }
+   printf("O %s i16=%d\n", exact == *out ? "plain" : "saturated", *out);
+   free(mat); free(out);
+}
+
+static void run_projtie(uint64_t seed, long n)
+{
+   vrng r; long c; r.s = seed ^ 0x9207;
+   for (c = 0; c < n; c++) {
+      int K = vchance(&r, 70) ? vrange(&r, 1, 6) : vrange(&r, 7, 18), k, mode = vbelow(&r, 5);
+      opus_int16 m[18]; float v[18];
+      for (k = 0; k < K; k++) {
+         m[k] = (opus_int16)(mode == 0 ? vrange(&r, -32768, 32767) : mode == 1 ? (vchance(&r, 50) ? 32767 : -32768) : vrange(&r, -20000, 20000));
+         if (mode == 3 && k < K / 2) m[k] = (opus_int16)vrange(&r, 20000, 32767);      /* push the running sum over the limit first ... */
+         if (mode == 3 && k >= K / 2) m[k] = (opus_int16)vrange(&r, -32768, -20000);    /* ... then pull it back: clamp-per-step differs from clamp-at-end */
+         v[k] = mode == 4 ? u2f(rand_float_bits(&r)) : (float)((mode == 3 ? 0.6 + 0.6 * vunit(&r) : 1.3 * vsym(&r)));
+         if (vchance(&r, 3)) v[k] = u2f(fedges[vbelow(&r, sizeof(fedges) / sizeof(fedges[0]))]);
+         if (v[k] != v[k]) v[k] = 0.f;   /* NaN samples are outside the property */
+      }
+      tie_proj(m, v, K);
    }
 }
 
@@ -540,6 +581,11 @@ static void run_stdin(void)
    int arch = opus_select_arch();
    while (fgets(line, sizeof line, stdin)) {
       char op[32], arg[1 << 15]; long n; int i;
+      { char cells[512], hx[256]; if (sscanf(line, "pcm proj %511s %255s", cells, hx) == 2) {
+           opus_int16 m[18]; float v[18]; int K = 0; char *t = strtok(cells, ",");
+           while (t && K < 18) { m[K++] = (opus_int16)atoi(t); t = strtok(NULL, ","); }
+           if (vunhex(hx, (unsigned char *)v, sizeof v) == 4L * K && K > 0) tie_proj(m, v, K);
+           continue; } }
       if (sscanf(line, "pcm %31s %32767s", op, arg) != 2) continue;
       if (!strcmp(op, "in16")) tie_in16(atoi(arg));
       else if (!strcmp(op, "in24")) tie_in24((opus_int32)strtol(arg, 0, 10));
@@ -551,7 +597,7 @@ static void run_stdin(void)
          printf("I pcm f2i16 %s\n", arg); fflush(stdout);
          celt_float2int16(in, out, cnt, arch);
          printf("O n=%d ", cnt);
-         for (i = 0; i < cnt; i++) printf("%s%d", i ? "," : "", out[i]);
+         for (i = 0; i < cnt; i++) { if (in[i] != in[i]) printf("%snan", i ? "," : ""); else printf("%s%d", i ? "," : "", out[i]); }
          printf("\n"); free(in); free(out);
       }
    }
@@ -566,6 +612,7 @@ int main(int argc, char **argv)
    else if (argc >= 4 && !strcmp(argv[1], "in24")) run_in24(strtoull(argv[2], 0, 10), atol(argv[3]));
    else if (argc >= 4 && !strcmp(argv[1], "out")) run_out(strtoull(argv[2], 0, 10), atol(argv[3]));
    else if (argc >= 4 && !strcmp(argv[1], "f2i16")) run_f2i16(strtoull(argv[2], 0, 10), atol(argv[3]));
+   else if (argc >= 4 && !strcmp(argv[1], "projtie")) run_projtie(strtoull(argv[2], 0, 10), atol(argv[3]));
    else if (argc >= 4 && !strcmp(argv[1], "enc")) run_enc(strtoull(argv[2], 0, 10), atol(argv[3]));
    else if (argc >= 4 && !strcmp(argv[1], "dec")) run_dec(strtoull(argv[2], 0, 10), atol(argv[3]));
    else if (argc >= 4 && !strcmp(argv[1], "ms")) run_ms(strtoull(argv[2], 0, 10), atol(argv[3]));
